@@ -54,12 +54,13 @@ QUICK = [
 THOROUGH = QUICK + [
     # the same shapes with the restrictions of the quick tier lifted one at a time
     {"name": "d2-mvis3", "roots": (None,), "levels": [L(2, "DF"), L(2, "F", VIS2)]},
-    {"name": "d2-fvis3", "roots": (None,), "levels": [L(2, "DF"), L(2, "F")]},
+    {"name": "d2-fvis3", "roots": (None,), "levels": [L(2, "DF", VIS3, VIS2), L(2, "F")]},
     {"name": "d2-decl", "roots": (None,), "levels": [L(2, "DF", VIS3, VIS2), L(2, "D", VIS2)]},
     {"name": "d3-k112-full", "roots": (None, "a"), "levels": [L(1, "DFG"), L(1, "DF"), L(2, "DF")]},
     {"name": "d3-k121-full", "roots": (None,), "levels": [L(1, "DF"), L(2, "DF"), L(1, "F", VIS2)]},
-    {"name": "d3-k122", "roots": (None,), "levels": [L(1, "DF"), L(2, "F", VIS3, VIS2), L(2, "F", VIS2)]},
-    {"name": "d3-k211", "roots": (None,), "levels": [L(2, "DF", VIS3, VIS2), L(1, "F"), L(1, "F")]},
+    {"name": "d3-k122", "roots": (None,),
+     "levels": [L(1, "F", VIS2, VIS2, anon=False), L(2, "F", VIS3, VIS2, anon=False), L(2, "F", VIS2)]},
+    {"name": "d3-k211", "roots": (None,), "levels": [L(2, "DF", VIS3, VIS2, anon=False), L(1, "F", VIS3, VIS2), L(1, "F")]},
 ]
 
 _choice_cache: dict = {}
